@@ -142,3 +142,101 @@ Example C01_example_caches_differ_only_at_owned_name :
   cache_agree_outside (in_auth_zone LocalExample.ex_zones) LocalExample.ex_cget LocalExample.ex_cget'
   /\ LocalExample.ex_cget LocalExample.n_wec RT_A <> LocalExample.ex_cget' LocalExample.n_wec RT_A.
 Proof. split; [exact LocalExample.ex_agree|exact LocalExample.ex_differ]. Qed.
+
+(* ====================================================================== *)
+(* network modes: the recursive and the forwarding resolver                 *)
+(* (lemmas: Resolver/RecursiveProofs.v, Resolver/ForwardingProofs.v)        *)
+(* ====================================================================== *)
+From RV Require Import Resolver.TransportModel Resolver.RecursiveModel Resolver.ForwardingModel
+     Resolver.RecursiveProofs Resolver.ForwardingProofs.
+
+(* 4a. done_means_no_upstream: a question that local resolution answers ([LDone]: an authoritative
+   zone's answer or name error, an override from a hosts file / non-authoritative zone, a complete
+   answer from zones + cache) is returned as it is by both network modes, and NOTHING else happens:
+   the state -- cache, clock, exchange log, exchange counter -- is unchanged.  Every oracle. *)
+Theorem C01_done_means_no_upstream_recursive :
+  forall (cache : Type) (cache_get : cache -> dname -> N -> list rr) (cache_insert_all : cache -> list rr -> cache)
+         (sort_names : list dname -> list dname) (zs : zones) (o : oracle) (pmode : protocol_mode) (port : N) fuel q st r,
+  resolve_local zs (cache_get (fst st)) LOCAL_FUEL [] q = Ok (LDone r) ->
+  resolve_recursive cache cache_get cache_insert_all sort_names zs o pmode port (S fuel) q st = (Ok r, st).
+Proof. exact recursive_done_no_upstream. Qed.
+Print Assumptions C01_done_means_no_upstream_recursive.
+
+Theorem C01_done_means_no_upstream_forwarding :
+  forall (cache : Type) (cache_get : cache -> dname -> N -> list rr) (cache_insert_all : cache -> list rr -> cache)
+         (zs : zones) (o : oracle) (forwarder : addr) fuel q st r,
+  resolve_local zs (cache_get (fst st)) LOCAL_FUEL [] q = Ok (LDone r) ->
+  resolve_forwarding cache cache_get cache_insert_all zs o forwarder (S fuel) q st = (Ok r, st).
+Proof. exact forwarding_done_no_upstream. Qed.
+Print Assumptions C01_done_means_no_upstream_forwarding.
+
+(* 4b. log_names_not_owned: no question sent upstream during a resolution -- for the question
+   itself, for an alias target, for the address of a nameserver host -- is about a name that an
+   authoritative zone owns ([owned_auth], Resolver/LocalSpec.v).  An alias leaving the zone sends
+   the resolver upstream for the TARGET; a name beneath a delegation point of an authoritative
+   zone is not owned by definition.  Every oracle, cache, fuel.  (Checked for a counterexample
+   first: QTYPE * on an owned alias is answered by the zone with the CNAME record itself, and for
+   every other type local resolution of an owned name is Done or an alias to follow --
+   owned_local_cases.) *)
+Theorem C01_log_names_not_owned_recursive :
+  forall (cache : Type) (cache_get : cache -> dname -> N -> list rr) (cache_insert_all : cache -> list rr -> cache)
+         (sort_names : list dname -> list dname) (zs : zones) (o : oracle) (pmode : protocol_mode) (port : N) fuel q st,
+  exists new,
+    ts_rlog (snd (snd (resolve_recursive cache cache_get cache_insert_all sort_names zs o pmode port fuel q st)))
+    = new ++ ts_rlog (snd st)
+    /\ Forall (fun e => ~ owned_auth zs (q_name (x_question e))) new.
+Proof. exact recursive_log_names_not_owned. Qed.
+Print Assumptions C01_log_names_not_owned_recursive.
+
+Theorem C01_log_names_not_owned_forwarding :
+  forall (cache : Type) (cache_get : cache -> dname -> N -> list rr) (cache_insert_all : cache -> list rr -> cache)
+         (zs : zones) (o : oracle) (forwarder : addr) fuel q st,
+  exists new,
+    ts_rlog (snd (snd (resolve_forwarding cache cache_get cache_insert_all zs o forwarder fuel q st)))
+    = new ++ ts_rlog (snd st)
+    /\ Forall (fun e => ~ owned_auth zs (q_name (x_question e))) new.
+Proof. exact forwarding_log_names_not_owned. Qed.
+Print Assumptions C01_log_names_not_owned_forwarding.
+
+(* what local resolution makes of a question about an owned name (the fact behind 4b) *)
+Theorem C01_owned_local_cases : forall zs cget f stack q,
+  owned_auth zs (q_name q) -> guards_pass stack q ->
+  (exists r, resolve_local zs cget (S f) stack q = Ok (LDone r))
+  \/ (exists rrs cq, resolve_local zs cget (S f) stack q = Ok (LCname rrs cq))
+  \/ resolve_local zs cget (S f) stack q = Panic \/ resolve_local zs cget (S f) stack q = OutOfFuel.
+Proof. exact owned_local_cases. Qed.
+Print Assumptions C01_owned_local_cases.
+
+(* 5. nxdomain_only_from_auth_zone in the network modes: the resolvers return
+   AuthoritativeNameError only when local resolution did (then C01_nxdomain_only_from_auth_zone_local
+   applies: an authoritative zone returned NameError for the question name), and nothing was sent.
+   Whatever an upstream server says comes back as NonAuthoritative -- a name error it reports is an
+   empty answer with its SOA. *)
+Theorem C01_nxdomain_only_from_auth_zone_recursive :
+  forall (cache : Type) (cache_get : cache -> dname -> N -> list rr) (cache_insert_all : cache -> list rr -> cache)
+         (sort_names : list dname -> list dname) (zs : zones) (o : oracle) (pmode : protocol_mode) (port : N) fuel q st s st',
+  resolve_recursive cache cache_get cache_insert_all sort_names zs o pmode port fuel q st = (Ok (AuthoritativeNameError s), st') ->
+  resolve_local zs (cache_get (fst st)) LOCAL_FUEL [] q = Ok (LDone (AuthoritativeNameError s)) /\ st' = st.
+Proof. exact recursive_nxdomain_only_local. Qed.
+Print Assumptions C01_nxdomain_only_from_auth_zone_recursive.
+
+Theorem C01_nxdomain_only_from_auth_zone_forwarding :
+  forall (cache : Type) (cache_get : cache -> dname -> N -> list rr) (cache_insert_all : cache -> list rr -> cache)
+         (zs : zones) (o : oracle) (forwarder : addr) fuel q st s st',
+  resolve_forwarding cache cache_get cache_insert_all zs o forwarder fuel q st = (Ok (AuthoritativeNameError s), st') ->
+  resolve_local zs (cache_get (fst st)) LOCAL_FUEL [] q = Ok (LDone (AuthoritativeNameError s)) /\ st' = st.
+Proof. exact forwarding_nxdomain_only_local. Qed.
+Print Assumptions C01_nxdomain_only_from_auth_zone_forwarding.
+
+(* the hypothesis of 4a is met by the worked configuration of the local part: the owned name
+   w.e.c. is answered locally, so the network modes return that answer with an untouched state *)
+Example C01_example_done_no_upstream : forall (o : oracle) pmode port fuel ts,
+  exists r,
+    resolve_recursive scache sc_get sc_insert_all sort_names_ord LocalExample.ex_zones o pmode port (S fuel)
+                      (LocalExample.qa LocalExample.n_wec) (sc_empty, ts) = (Ok r, (sc_empty, ts)).
+Proof.
+  intros o pmode port fuel ts.
+  destruct (resolve_local LocalExample.ex_zones (sc_get sc_empty) LOCAL_FUEL [] (LocalExample.qa LocalExample.n_wec)) as [[r| | |]| | |] eqn:E;
+    try (vm_compute in E; discriminate).
+  exists r. apply recursive_done_no_upstream. exact E.
+Qed.
